@@ -96,7 +96,11 @@ func PathOf(info *types.Info, e ast.Expr) (AccessPath, bool) {
 			if !walk(x.X) {
 				return false
 			}
-			p.Elems = append(p.Elems, "[]")
+			if tv, ok := info.Types[x.Index]; ok && tv.Value != nil {
+				p.Elems = append(p.Elems, "["+tv.Value.ExactString()+"]")
+			} else {
+				p.Elems = append(p.Elems, "[]")
+			}
 			return true
 		case *ast.CallExpr:
 			if len(x.Args) != 0 {
